@@ -7,6 +7,7 @@ import CCVerif.Lemmas.EvalExamples8
 import CCVerif.Lemmas.EvalExamples7n
 import CCVerif.Lemmas.EvalNestedExamples
 import CCVerif.Lemmas.EvalBlocksPatExamples
+import CCVerif.Lemmas.EvalBlocksPatFilterExamples
 /-!
 # C01 — evaluation returns the set-theoretic value
 
@@ -1025,5 +1026,81 @@ example : (evaluate 30 Examples7.env7 Examples10.r10).1 = .ok (.t [.e 3, .e 3]) 
 example : (evaluate 30 Examples7.env7 Examples10.q10).1 = .okBool true ∧
     denote (senvOf Examples7.env7) 30 .nil Examples10.q10 = some (.bool true) := by decide
 example : DeclOK [] Examples10.patAB "@ab" Examples10.XX := Examples10.declOK10 _ (by decide)
+
+/-! ## stage 11: filters inside expressions with tuple patterns
+
+Stage 10's relation `PE` has no rule for a FILTER node, so a filter could stand only in an expression over plain variables
+(stage 8).  `PE2` (`Lemmas/EvalBlocksPatFilter.lean`) = the rules of `PE` + two congruence rules: `Fi_idx[P₁,…,Pₖ](S)` (tuple
+form, `k` parameters for `k` indices) and `Fi_idx[P](S)` (one parameter for `k ≠ 1` indices) are related when parameters
+and argument are; the filter may stand anywhere - domain of a pattern, inside its scope with parameters / argument that
+use the leaves, under `R{}` / `I{}` / enumerated declarations.  `PE2.sound`: the reference value of a filter node is a
+function of the values of parameters and argument that is monotone in definedness (`filterTVal_mono`; NOT strict: an empty
+argument or one empty parameter decides the value without the other parameters - exactly the cases in which
+`EvaluateFilterTuple` does not evaluate them).  The machine side is unchanged: `simF` of stage 8 on the pattern-free form.
+NOT covered: calls inside an expression with patterns; the normal form for `e` is still a per-expression hypothesis. -/
+
+/-- stage 11: stage 10 with the filter rules in the pattern elimination -/
+def Stage11 (env : Env) (e : Ast) : Prop :=
+  ∃ G τ es n f0, GlobalsOK env G ∧ FragF env G 6 [] [] es n τ ∧ PE2 (senvOf env) [] [] e es ∧
+    normalizeTree env.funcs f0 e = some n
+
+/-- **eval_refines_denote_partial11_stable**: the refinement for closed expressions with tuple patterns in any binding
+position and filters anywhere (also in the scope of a pattern): a value returned by `Interpreter::Evaluate` is the value
+the reference semantics assigns to the ORIGINAL tree, at the evaluator's fuel and at every larger one. -/
+theorem eval_refines_denote_partial11_stable (env : Env) (e : Ast) (h : Stage11 env e) (fuel f' : Nat) (hf' : fuel ≤ f') :
+    (∀ v, (evaluate fuel env e).1 = .ok v → denote (senvOf env) f' .nil e = some (.val v)) ∧
+    (∀ b, (evaluate fuel env e).1 = .okBool b → denote (senvOf env) f' .nil e = some (.bool b)) := by
+  obtain ⟨G, τ, es, n, f0, hG, hf, hu, hn⟩ := h
+  rcases evaluate_blocksPatFilter hG hf hu hn fuel with hg | ho | ⟨eid, pos, he, _⟩
+  · cases τ with
+    | ty ty =>
+      obtain ⟨v, hr, _, _, hd⟩ := hg
+      constructor
+      · intro v' hv; rw [hr] at hv; injection hv with hv; rw [← hv]; exact hd f' hf'
+      · intro b hb; rw [hr] at hb; cases hb
+    | logic =>
+      obtain ⟨b, hr, hd⟩ := hg
+      constructor
+      · intro v hv; rw [hr] at hv; cases hv
+      · intro b' hb; rw [hr] at hb; injection hb with hb; rw [← hb]; exact hd f' hf'
+  · constructor <;> intro x hx <;> rw [ho] at hx <;> cases hx
+  · constructor <;> intro x hx <;> rw [he] at hx <;> cases hx
+
+/-- **eval_refines_denote_partial11**: `eval_refines_denote_statement` on stage 11 (stage 10 + filters inside expressions
+with patterns).  Missing from the full statement: calls inside an expression with patterns, reference values outside the
+typed classes without their typing hypothesis, the general proof that the normaliser returns the normal form of the
+pattern-free form, `Z`, `ℬ` beyond `2^POW_BOUND`, the any-type typings. -/
+theorem eval_refines_denote_partial11 : eval_refines_denote_statement Stage11 :=
+  fun env e h fuel => eval_refines_denote_partial11_stable env e h fuel fuel (Nat.le_refl _)
+
+/-- stage 10 is part of stage 11 -/
+theorem stage10_sub_stage11 (env : Env) (e : Ast) (h : Stage10 env e) : Stage11 env e := by
+  obtain ⟨G, τ, es, n, f0, hG, hf, hu, hn⟩ := h
+  exact ⟨G, τ, es, n, f0, hG, hf, hu.toPE2, hn⟩
+
+/-- **pattern_elim_sound_partial11**: the reduction with filters, on the reference side alone -/
+theorem pattern_elim_sound_partial11 (S : SEnv) (e es : Ast) (h : PE2 S [] [] e es) (f : Nat) (v : SemVal)
+    (hv : denote S f .nil es = some v) (f' : Nat) (hf' : f ≤ f') : denote S f' .nil e = some v :=
+  h.sound .nil .nil (URel.nil _ _) (EnvTy.nil _) f v hv f' (by omega)
+
+/-- **filter_value_monotone_partial11**: the value of the tuple-form filter from the values of its parameters (`none` =
+no value) never changes when undefined parameters become defined -/
+theorem filter_value_monotone_partial11 (idx : List Int) (argv : List Val) (L' L : List (Option (List Val)))
+    (h : List.Forall₂ OLe L' L) (v : SemVal) (hv : filterTVal idx argv L' = some v) : filterTVal idx argv L = some v :=
+  filterTVal_mono idx argv h v hv
+
+/-! non-vacuity of stage 11 (`Lemmas/EvalBlocksPatFilterExamples.lean`), no globals, `S = {1,2}×{1,2}`:
+`I{(a,b) | (a,b):∈S; (a,b)∈Fi1[{1}](S)} = {(1,1),(1,2)}`; form over the generated local `@ab`:
+`I{(pr1(@ab),pr2(@ab)) | @ab:∈S; (pr1(@ab),pr2(@ab))∈Fi1[{1}](S)}`; the second parameter list is defined while the first is
+not: `filterTVal` on `[none, some []]` -/
+example : Stage11 Examples.env0 Examples11.i11 :=
+  ⟨[], _, _, _, 10, globalsOK_nil _, Examples11.i11s_frag, Examples11.i11_pe, Examples11.i11_normalizes⟩
+example : normalizeTree Examples.env0.funcs 10 Examples11.i11 = some Examples11.i11s := by rfl
+example : (evaluate 30 Examples.env0 Examples11.i11).1 = .ok (.s [.t [.e 1, .e 1], .t [.e 1, .e 2]]) ∧
+    denote (senvOf Examples.env0) 30 .nil Examples11.i11 = some (.val (.s [.t [.e 1, .e 1], .t [.e 1, .e 2]])) :=
+  Examples11.i11_value
+example : List.Forall₂ OLe [none, some ([] : List Val)] [some [.e 1], some []] ∧
+    filterTVal [1, 2] [.t [.e 1, .e 2]] [none, some []] = some (.val (.s [])) :=
+  ⟨.cons (fun _ h => by cases h) (.cons (fun _ h => h) .nil), by decide⟩
 
 end CCVerif.Eval
